@@ -5,7 +5,7 @@
 //   a keyword operator alias swapped with its symbolic form at a symbolic occurrence; a user identifier renamed consistently to a fresh name
 //   (incl. the soft keywords A U W R E M sup inf bounds simulation).
 // Oracle: diagnostics multiset (positions ignored), supported-methods verdict and canonical document dump equal up to the renaming.
-#include "docdump.h"
+#include "xmlmodel.h"
 
 // \x01 ... \x02 delimit sub-expressions that may be wrapped in parentheses without changing the meaning
 #define S "\x01"
@@ -127,11 +127,11 @@ extern "C" void harness_aliases()  /* vf: bounds=4_models_x_every_occurrence_of_
     vf_reach("end");
 }
 
-extern "C" void harness_renaming()  /* vf: bounds=4_models_x_16_user_identifiers_x_12_fresh_names(incl._soft_keywords_A,U,W,R,E,M,sup,inf,bounds,simulation) */
+extern "C" void harness_renaming()  /* vf: bounds=4_models_x_16_user_identifiers_x_14_fresh_names(incl._soft_keywords_A,U,W,R,E,M,sup,inf,bounds,simulation_and_names_with_$_and_#) */
 {
     static const char* IDS[] = {"N", "cnt", "flag", "x", "go", "buf", "inc", "v", "P", "id", "y", "Idle", "Busy", "k", "P1", "P2", "b", "d", "Q", "i", "z"};
-    static const char* FRESH[] = {"zz9", "A", "U", "W", "R", "E", "M", "sup", "inf", "bounds", "simulation", "_q"};
-    int mi = vf_pick("!model", NMODELS), id = vf_pick("!identifier", 21), fr = vf_pick("!fresh", 12);
+    static const char* FRESH[] = {"zz9", "A", "U", "W", "R", "E", "M", "sup", "inf", "bounds", "simulation", "_q", "w$1", "n#2"};   // the identifier alphabet includes $ and #
+    int mi = vf_pick("!model", NMODELS), id = vf_pick("!identifier", 21), fr = vf_pick("!fresh", 14);
     std::string m = strip(MODELS[mi]);
     vf_assume(rename_word(m, IDS[id], "#") != m);   // the identifier occurs in this model
     vf_assume(rename_word(m, FRESH[fr], "#") == m);   // and the new name is fresh
@@ -174,5 +174,77 @@ extern "C" void harness_old_syntax()  /* vf: bounds=old-syntax_model_x_(keyword_
     }
     vf_assert(base.ok, "old-syntax-model-accepted");
     compare(base, observe(r, false), r);
+    vf_reach("end");
+}
+
+// renaming through the XML route: template and location names travel through <name> elements and the reader's own identifier check
+extern "C" void harness_renaming_xml()  /* vf: bounds=2-template_XML_model_x_12_user_identifiers(templates,locations,variables,channel,select_binder,parameter,process)_x_8_fresh_names(incl._$_and_#,soft_keywords) reach=end */
+{
+    static const char* IDS[] = {"T", "U", "A", "B", "C", "g", "h", "c", "z", "k", "a", "P1"};
+    static const char* FRESH[] = {"zz9", "wait$1", "Cell#2", "_q", "A1", "Wait_2", "E", "x9$#"};   // names the reader accepts in a <name> element (it refuses every keyword of any syntax there)
+    int id = vf_pick("!identifier", 12), fr = vf_pick("!fresh", 8);
+    auto build = [&](bool renamed) {
+        MModel m;
+        m.gdecl = "int g; int h; clock x; chan c; const int K = 2;";
+        MTemplate t; t.name = "T"; t.params = "const int a"; t.decls = "clock z;";
+        t.locs = {MLoc{"id0", "A", "z <= 5"}, MLoc{"id1", "B", "x <= 7"}, MLoc{"id2", "C"}};
+        MEdge e0; e0.src = 0; e0.dst = 1; e0.select = "k : int[0,2]"; e0.guard = "g < a + k"; e0.sync = "c!"; e0.assign = "h = g + 1, z = 0";
+        MEdge e1; e1.src = 1; e1.dst = 2; e1.guard = "h > 1"; e1.assign = "g = 0";
+        t.edges = {e0, e1};
+        MTemplate u; u.name = "U"; u.locs = {MLoc{"id10", "A"}, MLoc{"id11", "B", "x <= 9"}}; u.init = 1;
+        MEdge f; f.src = 1; f.dst = 0; f.sync = "c?"; u.edges = {f};
+        m.templs = {t, u};
+        m.system = "P1 = T(1); system P1, U;";
+        if (renamed) {
+            auto rn = [&](std::string& x) { x = rename_word(x, IDS[id], FRESH[fr]); };
+            rn(m.gdecl); rn(m.system);
+            for (auto& tt : m.templs) { rn(tt.name); rn(tt.params); rn(tt.decls); for (auto& l : tt.locs) { rn(l.name); rn(l.inv); rn(l.rate); } for (auto& e : tt.edges) { rn(e.select); rn(e.guard); rn(e.sync); rn(e.assign); rn(e.prob); } }
+        }
+        return m;
+    };
+    auto obs = [&](MModel m) {
+        Obs o; XmlDoc d = render_xml(m); Document doc; bool threw = false;
+        try { parse_xml(d, &doc); if (!doc.has_errors()) { FeatureChecker fc(doc); doc.set_supported_methods(fc.get_supported_methods()); } } catch (std::exception& e) { threw = true; vf_note(e.what()); }
+        o.ok = !threw && !doc.has_errors(); o.dump = dump_document(doc); o.diag = dump_diagnostics(doc); o.methods = dump_methods(doc);
+        return o;
+    };
+    Obs base = obs(build(false));
+    vf_assert(base.ok, "base-model-accepted");
+    Obs o = obs(build(true));
+    Obs want = base;
+    want.dump = rename_word(base.dump, IDS[id], FRESH[fr]); want.diag = rename_word(base.diag, IDS[id], FRESH[fr]);
+    compare(want, o, FRESH[fr]);
+    vf_reach("end");
+}
+
+// queries: blanks and comments (also comments that span lines) between the tokens of one query; a line break outside a comment ends a query and is no such rewrite
+extern "C" void harness_query_whitespace()  /* vf: bounds=10_queries_x_every_inter-token_space_x_5_fillers(spaces,tab,block_comment,block_comment_spanning_2_and_3_lines) reach=end */
+{
+    static const char* QUERIES[] = {"A[] not deadlock", "E<> P1.Busy and cnt > 1", "A<> cnt == 3 imply flag", "P1.Idle --> P2.Busy", "E[] cnt < 3 or not flag", "sup: cnt , x", "Pr[<=10] (<> P1.Busy)",
+                                    "simulate [<=10] { cnt , x }", "E<> forall (i : int[0,2]) buf[i] >= 0", "inf { P1.Busy } : x"};
+    static const char* FILL[] = {"   ", "\t", " /* c */ ", " /* eventually\n twice */ ", " /* a\n b\n c */ "};
+    int qi = vf_pick("!query", 10), f = vf_pick("!filler", 5), g = vf_pick("!gap", 12);
+    std::string q = QUERIES[qi];
+    std::vector<size_t> gaps;
+    for (size_t i = 0; i < q.size(); i++) if (q[i] == ' ') gaps.push_back(i);
+    vf_assume(g < (int)gaps.size());
+    std::string r = q.substr(0, gaps[g]) + FILL[f] + q.substr(gaps[g] + 1);
+    auto run = [&](const std::string& text) {
+        Model m; Obs o;
+        bool ok = m.load(strip(MODELS[0]));
+        vf_assert(ok, "model-accepted");
+        TigaPropertyBuilder pb(m.doc);
+        size_t n0 = m.doc.get_errors().size();
+        int rc = -2; bool threw = false;
+        try { rc = parseProperty(text.c_str(), &pb, ""); } catch (std::exception& e) { threw = true; vf_note(e.what()); }
+        o.ok = !threw && rc == 0 && m.doc.get_errors().size() == n0;
+        o.diag = dump_diagnostics(m.doc); o.methods = std::to_string(pb.getProperties().size());
+        for (auto& p : pb.getProperties()) { try { o.dump += p.intermediate.str() + "\n"; } catch (std::exception&) { o.dump += "<unprintable>\n"; } }
+        return o;
+    };
+    Obs base = run(q);
+    if (!base.ok) vf_note(base.diag.c_str());
+    if (qi != 6 && qi != 7) vf_assert(base.ok, "query-accepted");   // the statistical queries are rejected for this model (a non-broadcast channel): a rejected query is compared all the same
+    compare(base, run(r), r);
     vf_reach("end");
 }
